@@ -66,7 +66,10 @@ type plug struct {
 	lastUnproc []string
 	metaErr    bool // get-plugin-metadata fails
 	verifyErr  bool // verify-signature fails instead of answering
+	answerAll  bool // answer success for whatever capability is asked for, known or not
 }
+
+const likeKey = lib.HdrPlugin + "Policy"
 
 func (p *plug) GetMetadata(ctx context.Context, req *pf.GetMetadataRequest) (*pf.GetMetadataResponse, error) {
 	if p.metaErr {
@@ -97,6 +100,10 @@ func (p *plug) VerifySignature(ctx context.Context, req *pf.VerifySignatureReque
 			resp.VerificationResults[c] = &pf.VerificationResult{Success: true}
 		case "failure":
 			resp.VerificationResults[c] = &pf.VerificationResult{Success: false, Reason: "scripted failure"}
+		case "":
+			if p.answerAll {
+				resp.VerificationResults[c] = &pf.VerificationResult{Success: true}
+			}
 		}
 	}
 	if p.process {
@@ -179,7 +186,7 @@ type verdict struct {
 func model(c cell) verdict {
 	v := verdict{fail: map[trustpolicy.ValidationType]bool{}}
 	switch c.Plugin {
-	case "managerNil", "notInstalled", "tooOld", "tooOldPre", "noCap", "TImetaErr", "tooOldMalformedMin":
+	case "managerNil", "notInstalled", "tooOld", "tooOldPre", "noCap", "noCapUnknown", "noCapLower", "TImetaErr", "tooOldMalformedMin":
 		v.why = "plugin-unusable"
 		return v
 	}
@@ -211,7 +218,7 @@ func model(c cell) verdict {
 		v.why = "verdict-missing"
 	case c.Crit == "intKeyed":
 		v.why = "crit-int-keyed-nothing-processes-it"
-	case c.Crit == "unprocessed" && v.ran:
+	case (c.Crit == "unprocessed" || c.Crit == "unprocessedLike") && v.ran:
 		v.why = "crit-left-unprocessed-by-plugin"
 	case c.Crit != "none" && !v.ran && c.Plugin == "none":
 		v.why = "crit-no-plugin-named"
@@ -271,6 +278,8 @@ func main() {
 		switch k.crit {
 		case "str":
 			ext = append(ext, lib.ExtAttr{Key: "com.example.crit", Value: "v", Critical: true})
+		case "strLike": // a foreign critical attribute whose name merely begins like the library's own two plugin headers
+			ext = append(ext, lib.ExtAttr{Key: likeKey, Value: "v", Critical: true})
 		case "int":
 			ext = append(ext, lib.ExtAttr{Key: int64(4242), Value: "v", Critical: true})
 		}
@@ -347,6 +356,32 @@ func main() {
 		}
 		_ = ci
 	}
+	// both tiers, reduced product: trust-store lists in which one named store cannot be loaded while another one holds the
+	// anchor (a store load error is a failed authenticity validation wherever it occurs in the list); plugins that declare
+	// capabilities, none of which is a verification capability; a critical attribute named like the library's own headers
+	for _, fs := range combos {
+		for _, L := range lib.AllLevelMaps() {
+			for _, anchor := range []string{"foundThenLoaderr", "loaderrThenFound"} {
+				for _, plugin := range []string{"none", "TI", "TIREV"} {
+					for _, ident := range []bool{true, false} {
+						cells = append(cells, cell{Format: fs[0], Scheme: fs[1], L: L, Anchor: anchor, Ident: ident, CertValid: true, Rev: "ok", Plugin: plugin, VTI: "success", VREV: "success", Crit: "none"})
+					}
+				}
+			}
+			for _, plugin := range []string{"noCapUnknown", "noCapLower"} {
+				for _, anchor := range []string{"found", "notfound"} {
+					for _, rev := range []string{"ok", "revoked"} {
+						cells = append(cells, cell{Format: fs[0], Scheme: fs[1], L: L, Anchor: anchor, Ident: true, CertValid: true, Rev: rev, Plugin: plugin, VTI: "success", VREV: "success", Crit: "none"})
+					}
+				}
+			}
+			for _, plugin := range []string{"TI", "REV", "TIREV"} {
+				for _, crit := range []string{"processedLike", "unprocessedLike"} {
+					cells = append(cells, cell{Format: fs[0], Scheme: fs[1], L: L, Anchor: "found", Ident: true, CertValid: true, Rev: "ok", Plugin: plugin, VTI: "success", VREV: "success", Crit: crit})
+				}
+			}
+		}
+	}
 	if r.Quick() {
 		// quick tier: the less used signing scheme on a reduced product (its certificate-time check is a branch of its own)
 		for _, L := range lib.AllLevelMaps() {
@@ -384,6 +419,8 @@ func main() {
 		switch c.Crit {
 		case "processed", "unprocessed":
 			crit = "str"
+		case "processedLike", "unprocessedLike":
+			crit = "strLike"
 		case "intKeyed":
 			crit = "int"
 		}
@@ -405,7 +442,7 @@ func main() {
 		}
 		ts := lib.NewMemTS()
 		switch c.Anchor {
-		case "found":
+		case "found", "foundThenLoaderr", "loaderrThenFound":
 			ts.Put(storeType+":x", root.Cert)
 		case "notfound":
 			ts.Put(storeType+":x", other.Cert)
@@ -420,10 +457,23 @@ func main() {
 		if i%4 == 3 { // identities of another kind listed first are simply not x509.subject identities
 			ids = []string{"acme.signer.id:1234", "did:example:abc", id}
 		}
-		doc := lib.OCIPolicy(c.L.SV(i), []string{storeType + ":x"}, ids)
+		stores := []string{storeType + ":x"}
+		switch c.Anchor {
+		case "foundThenLoaderr":
+			stores = []string{storeType + ":x", storeType + ":broken"}
+		case "loaderrThenFound":
+			stores = []string{storeType + ":broken", storeType + ":x"}
+		}
+		doc := lib.OCIPolicy(c.L.SV(i), stores, ids)
 		rs := &revScript{status: c.Rev}
-		p := &plug{version: "1.0.0", verdict: map[pf.Capability]string{TI: c.VTI, REV: c.VREV}, process: c.Crit == "processed", caps: capsOf(c.Plugin)}
+		p := &plug{version: "1.0.0", verdict: map[pf.Capability]string{TI: c.VTI, REV: c.VREV}, process: c.Crit == "processed" || c.Crit == "processedLike", caps: capsOf(c.Plugin)}
 		switch c.Plugin {
+		case "noCapUnknown": // capabilities of some later contract: not verification capabilities this library knows
+			p.caps = []pf.Capability{"SIGNATURE_VERIFIER.SIGNING_TIME_CHECK", pf.CapabilitySignatureGenerator}
+			p.answerAll = true
+		case "noCapLower": // capability names are case-sensitive
+			p.caps = []pf.Capability{"signature_verifier.trusted_identity", "Signature_Verifier.Revocation_Check"}
+			p.answerAll = true
 		case "noCap":
 			p.caps = []pf.Capability{pf.CapabilitySignatureGenerator, pf.CapabilityEnvelopeGenerator}
 		case "tooOldMalformedMin":
@@ -522,10 +572,14 @@ func main() {
 				r.Violation(sigOf("plugin-capabilities-requested"), fmt.Sprintf("plugin was asked for %v, model says %v", p.lastCaps, want.requested), wit)
 			}
 			wantUn := 0
-			if c.Crit == "processed" || c.Crit == "unprocessed" {
+			wantKey := "com.example.crit"
+			switch c.Crit {
+			case "processed", "unprocessed":
 				wantUn = 1
+			case "processedLike", "unprocessedLike":
+				wantUn, wantKey = 1, likeKey
 			}
-			if len(p.lastUnproc) != wantUn || (wantUn == 1 && p.lastUnproc[0] != "com.example.crit") {
+			if len(p.lastUnproc) != wantUn || (wantUn == 1 && p.lastUnproc[0] != wantKey) {
 				r.Violation(sigOf("plugin-unprocessed-attributes"), fmt.Sprintf("plugin was offered attributes %v", p.lastUnproc), wit)
 			}
 		}
